@@ -141,7 +141,7 @@ def main(argv=None):
                            "pruned": 0, "functions": [], "bounded": None, "fmodel": "?", "solver_s": 0, "canary": None,
                            "assumptions": [], "props": [prop], "replay": None, "wall_s": 0, "pending": []}
     with cf.ProcessPoolExecutor(max_workers=max(1, a.jobs), mp_context=ctxm) as ex:
-        futs = {ex.submit(_work, (u.name, tier, (), 4 * a.jobs if getattr(u, "parallel", False) else 0)): u.name for u in units}
+        futs = {ex.submit(_work, (u.name, tier, (), a.jobs if getattr(u, "parallel", False) else 0)): u.name for u in units}
         while futs:
             done, _ = cf.wait(list(futs), return_when=cf.FIRST_COMPLETED)
             for f in done:
